@@ -655,4 +655,4 @@ MANIFEST = dict(
                "proved counterexample.",
     technique="Lean 4 proof (invariant by induction over operation histories) + model/implementation correspondence",
 )
-READY = False
+READY = True
